@@ -316,7 +316,7 @@ func main() {
 	sum := mcx.Explore(r, scs, mcx.Config{Wall: ev.Pick(r, 3*time.Minute, 25*time.Minute)})
 	mcx.Report(r, scs, sum)
 	r.Set("distinct_nontrivial", int64(len(sum.Outcomes)))
-	r.Set("rule", "history = interleaving of the chain of housekeeping ticks at k*T-100ms, k*T+100ms (k=1..R+2) with up to N one-shot events {empty ACK, RST, piggy-backed response, separate NON response, cancel} per request, every event applied to a settled connection; observation = Session.WriteMessage log with virtual timestamps; oracle from the statement (copies <= 1+R, k-th copy later than k*T, byte-identical, none after ACK/RST/cancel/return, success only with the peer's response, success required when a piggy-backed response arrives before the attempts are exhausted, NSTART=1 serialises); non-trivial = distinct (history, outcome)")
+	r.Set("rule", "history = interleaving of the chain of housekeeping ticks at k*T-100ms, k*T+100ms (k=1..R+2) with up to N one-shot events {empty ACK, RST, piggy-backed response, separate NON response, cancel} per request, every event applied to a settled connection; observation = Session.WriteMessage log with virtual timestamps; oracle from the statement (copies <= 1+R, k-th copy later than k*T, byte-identical, none after ACK/RST/cancel/return, success only with the peer's response, success required when a piggy-backed response arrives before the attempts are exhausted, NSTART=1 serialises); non-trivial = distinct (history, outcome); variants: request context with a 10-minute deadline, request payload whose reader is at offset 4")
 	r.Sample(map[string]any{"scenario": scs[1].Name, "history": "tick@1.9s tick@2.1s ack0 tick@3.9s sep0"})
 	r.Assume("in-memory session: a write succeeds instantly; ticks are atomic events (quantifier is over histories)", "a separate response without any acknowledgement, or any response after exhaustion, may go either way (DESIGN §7a C06)")
 	r.Finish()
